@@ -21,13 +21,18 @@ LEVEL_TEXT = ("Proof (F/M): index_transparent_refuted — the faithful model doe
               "(offset,length) ranges are swapped pass every validation (the batch CRC covers the 16-byte address prefixes only) and the store reads "
               "the other chunk (F1, reproduced on the real code). index_transparent_partial — for every journal and every index image that is absent, "
               "malformed, has no complete batch or fails any validation (checksum, contiguity, root at batchEnd), the view with the index equals the "
-              "view without it, and a read-only open leaves both files untouched. The model is tied to the code by opening every variant with the "
+              "view without it, and a read-only open leaves both files untouched. index_transparent_validated — for every validated index (genuine or "
+              "stale) over a journal whose indexed prefix is a run of intact records with a root record at the indexed offset, IF the lookups the index "
+              "supplied are the journal's own ranges (the hypothesis F1 shows cannot be dropped) and the 16-byte prefix tells the looked-up address "
+              "apart from the journal's chunk addresses, the view equals the index-free one (rests on C03 scan_app); own_lookups_agree derives that "
+              "hypothesis from 'the lookups are, in order, those of the chunk records', which C03 index_stream_covers proves of the writer. The model is tied to the code by opening every variant with the "
               "real code twice (with / without the index) and comparing both observations and the index file left behind inside Coq.")
 LEVEL_NOTE = ("Trusted: Coq kernel, translator (tags and sizes), Go harness + Python glue. Modelled, not verified: os.File/bufio (ReadFull/ReadByte "
               "as list operations), the errgroup/channel plumbing of readJournalIndex (sequential in the model), Go maps (association lists, "
-              "later-wins). The validated-prefix case of transparency (a genuine, possibly stale, index) is checked by correspondence only, "
-              "not proved universally.")
-THEOREMS = ["index_transparent_refuted (F1)", "index_transparent_partial", "ro_open_pure_index", "c04_consts_pinned"]
+              "later-wins). Not proved: the byte-level round trip of the writer's index stream through parse_index (so that a genuine index FILE "
+              "satisfies the hypothesis of index_transparent_validated unconditionally); it is tied by the correspondence (C03 compares the model's "
+              "index bytes with the real journal.idx, C04 compares every open).")
+THEOREMS = ["index_transparent_refuted (F1)", "index_transparent_partial", "index_transparent_validated", "own_lookups_agree", "ro_open_pure_index", "genuine_index_transparent", "c04_consts_pinned"]
 REFUTED = ["index_transparent (for every index image): refuted by index_transparent_refuted"]
 RULE = ("a case = op history through the real writer with maxNovel 1..3 (several index batches) x variants (journal intact or truncated; index genuine, "
         "missing, empty, truncated at every record boundary +-1 and sampled offsets, stale prefix, xor in every field of lookup and meta records, "
